@@ -110,6 +110,12 @@ func genC18Registry(r *Rng) *Scenario {
 	dirs := []string{"", "", "blog/", "blog/posts/", "x/y/z/", "admin/"}
 	stems := []string{"home", "about", "index", "p1", "list", "a", "t", "tw", "page.v2"}
 	n := r.Range(2, 5)
+	if r.Chance(3) {
+		n = 60 // many files: more than any worker pool has workers, more than small caches hold
+		for i := 0; i < 50; i++ {
+			stems = append(stems, fmt.Sprintf("p%03d", i))
+		}
+	}
 	for i := 0; i < n; i++ {
 		rel := Pick(r, dirs) + Pick(r, stems)
 		if seen[rel+ext] {
